@@ -95,6 +95,26 @@ def gen_cases(ctx, ngroups):
         for _ in range(14):
             toks += ["n", "x0" if r.random() < 0.05 else "x1"]
         out.append(Case(A.rdr_op(kind, pol, toks, d), tags={"tree", "prefix-siblings", "pol=" + pol}, note=("t", 200000 + g)))
+    # members whose compressed size is in the gigabytes (a sparse file: header, a hole, the later members), on a seekable FILE:
+    # skipping or partly reading the big member must lead to the same later headers as reading the later members alone
+    from vlib import lhaenc as E2
+    for g, gap in enumerate([0x7fffffff, 0x80000000, 0x80000000 + 8192, 0xc0000000][: (2 if ctx.tier == "quick" else 4)]):
+        f1 = E2.Fields(level=r.choice([0, 1, 2]), method=b"-lh0-", clen=gap, length=gap, crc=0, name=b"big.bin", os_type=0x4d)
+        if f1.level == 2:
+            f1.exts = [(E2.EXT_FILENAME, b"big.bin")]; f1.name = b""
+        h1 = E2.encode(f1)
+        rest = b""
+        for nm in (b"b.txt", b"c.txt"):
+            d = S.rand_bytes(r, r.choice([5, 40]))
+            f2 = E2.Fields(level=1, method=b"-lh0-", clen=len(d), length=len(d), crc=E2.crc16(d), name=nm, os_type=0x4d)
+            rest += E2.encode(f2) + d
+        rest += b"\0"
+        gid = 300000 + g
+        pol = r.choice(A.POLICIES)
+        out.append(Case("rdr seek %s -1 n;n;n %s" % (pol, rest.hex()), tags={"big-ref"}, note=("B", gid, "ref")))
+        for hist in (["n", "n", "n", "n"], ["n", "r10", "n", "n", "n"], ["n", "r100000", "r7", "n", "n", "n"]):
+            out.append(Case("rdrbig %s %d %s %s %s" % (pol, gap, ";".join(hist), h1.hex(), rest.hex()),
+                            tags={"big-member", "c-only", "gap=%x" % gap}, note=("B", gid, "big")))
     # every presented entry gets a treatment — also the directories the reader re-presents on its own (reads and checks on them
     # must deliver nothing and must not disturb the member that is already pending behind them)
     for g in range(ngroups // 2):
@@ -140,6 +160,24 @@ def judge_groups(cases, c_outs):
         if c.note:
             groups.setdefault(c.note[1], []).append(i)
     for g, idxs in groups.items():
+        if cases[idxs[0]].note[0] == "B":
+            ref = [i for i in idxs if cases[i].note[2] == "ref"]
+            if not ref or c_outs[ref[0]].startswith(("CRASH", "TIMEOUT")):
+                continue
+            want = [x for x in split_result(c_outs[ref[0]])]
+            for i in idxs:
+                if cases[i].note[2] != "big":
+                    continue
+                if c_outs[i].startswith(("CRASH", "TIMEOUT")):
+                    why[i] = "implementation crashed / hung on a member with a multi-gigabyte declared size: " + c_outs[i][:120]
+                    continue
+                ops = cases[i].op.split()[3].split(";")
+                res = split_result(c_outs[i])
+                hdrs = [x for o, x in zip(ops, res) if o == "n"]
+                if hdrs[1:1 + len(want)] != want[:len(hdrs) - 1]:
+                    why[i] = ("after a member of %s bytes was skipped / partly read on a seekable stream the later headers are %s; read on "
+                              "their own they are %s" % (cases[i].op.split()[2], [h[:40] for h in hdrs[1:]], [h[:40] for h in want]))
+            continue
         solos = [i for i in idxs if cases[i].note[0] == "g"]
         ref_hdrs, ref_i = None, None
         member_bytes = {}
